@@ -94,6 +94,13 @@ Proof.
   cbn [applys19 fold_left]. fold (applys19 (apply19 d e) es). rewrite IH by assumption. now apply untouched_lookup.
 Qed.
 
+Lemma close_ev_untouched ok t p b : t <> p -> untouched p (@close_ev Blk ok t b).
+Proof. intros H. destruct ok; cbn [close_ev untouched]; [exact H|exact I]. Qed.
+
+Ltac unt Hp He :=
+  repeat first [ apply Forall_app; split | exact He | apply Forall_nil | apply Forall_cons
+               | exact I | exact Hp | (apply close_ev_untouched; exact Hp) | (split; exact Hp) ].
+
 Lemma applys19_app (d : dir) a b : applys19 d (a ++ b) = applys19 (applys19 d a) b.
 Proof. apply fold_left_app. Qed.
 
@@ -195,28 +202,30 @@ Proof.
   intros Hd [Hlen Hrd]. unfold download. set (part := path ++ download_partial_suffix).
   assert (Hp : part <> path) by apply dl_part_neq.
   destruct (lookup d path) as [c|] eqn:El; [cbn [fst]; apply safe_good; [exact Hd|repeat constructor]|].
-  destruct (s_get src); cbn [negb]; [|cbn [fst]; apply safe_good; [exact Hd|repeat constructor; exact Hp]].
-  destruct (s_status src); cbn [negb]; [|cbn [fst]; apply safe_good; [exact Hd|repeat constructor; exact Hp]].
-  destruct (s_length src) as [len|] eqn:Elen; [|cbn [fst]; apply safe_good; [exact Hd|repeat constructor; exact Hp]].
+  destruct (s_get src); cbn [negb]; [|cbn [fst]; apply safe_good; [exact Hd|unt Hp I]].
+  destruct (s_status src); cbn [negb]; [|cbn [fst]; apply safe_good; [exact Hd|unt Hp I]].
+  destruct (s_length src) as [len|] eqn:Elen; [|cbn [fst]; apply safe_good; [exact Hd|unt Hp I]].
   destruct (dl_loop part _ 0 (s_reads src) []) as [[e acc] ok] eqn:E.
   assert (He : Forall (untouched path) e) by (eapply dl_loop_untouched; eassumption).
-  destruct ok; cbn [fst].
+  destruct ok; [destruct (s_close src)|]; cbn [andb fst close_ev].
   - assert (acc = P) as -> by (apply (dl_loop_honest part P _ Hrd _ _ _ _ _ _ (Hlen len eq_refl) E eq_refl)).
     intros k. rewrite !app_assoc. apply (prefix_good path part P d); [left; exact El| |].
-    + rewrite <- !app_assoc. repeat (apply Forall_app; split); repeat constructor; try exact Hp. exact He.
+    + rewrite <- !app_assoc. unt Hp He.
     + apply close_lookup.
-  - apply safe_good; [exact Hd|]. repeat (apply Forall_app; split); repeat constructor; try exact Hp. exact He.
+  - apply safe_good; [exact Hd|]. unt Hp He.
+  - apply safe_good; [exact Hd|]. unt Hp He.
 Qed.
 
 Lemma download_success path P (d : dir) src len : lookup d path = None ->
   s_get src = true -> s_status src = true -> s_length src = Some len ->
   Z.to_nat (download_num_blocks len download_block_size) = length P -> s_reads src = map Some P ->
+  s_close src = true ->
   exists evs, download d path src = (evs, true) /\ lookup (applys19 d evs) path = Some (Whole P) /\
     lookup (applys19 d evs) (path ++ download_partial_suffix) = None.
 Proof.
-  intros El Hg Hs Hl Hn Hr. unfold download. rewrite El, Hg, Hs, Hl, Hn, Hr. cbn [negb].
+  intros El Hg Hs Hl Hn Hr Hc. unfold download. rewrite El, Hg, Hs, Hl, Hn, Hr, Hc. cbn [negb].
   set (part := path ++ download_partial_suffix).
-  destruct (dl_loop_all part P 0 []) as [e He]. rewrite He. cbn [app]. eexists. split; [reflexivity|].
+  destruct (dl_loop_all part P 0 []) as [e He]. rewrite He. cbn [app andb]. eexists. split; [reflexivity|].
   assert (Hp : part <> path) by apply dl_part_neq.
   change (DMk :: DEx path :: DCr part :: DGet :: DStatus :: e ++ [DCl part P; DRn part path])
     with ((DMk :: DEx path :: DCr part :: DGet :: DStatus :: e) ++ [DCl part P] ++ [DRn part path]).
@@ -244,21 +253,23 @@ Proof.
   destruct (z_open z); cbn [negb]; [|cbn [fst]; apply safe_good; [exact Hd|repeat constructor]].
   destruct (cp_loop dpart 0 (z_chunks z) []) as [[e acc] ok] eqn:E.
   assert (He : Forall (untouched dpath) e) by (eapply cp_loop_untouched; eassumption).
-  destruct ok; cbn [fst].
+  destruct ok; [destruct (z_close z)|]; cbn [andb fst close_ev].
   - assert (acc = P) as -> by (apply (cp_loop_honest dpart P _ Hz _ _ _ _ _ E eq_refl)).
     intros k. rewrite !app_assoc. apply (prefix_good dpath dpart P d); [left; exact El| |].
-    + rewrite <- !app_assoc. repeat (apply Forall_app; split); repeat constructor; try exact Hp. exact He.
+    + rewrite <- !app_assoc. unt Hp He.
     + apply close_lookup.
-  - apply safe_good; [exact Hd|]. repeat (apply Forall_app; split); repeat constructor; try exact Hp. exact He.
+  - apply safe_good; [exact Hd|]. unt Hp He.
+  - apply safe_good; [exact Hd|]. unt Hp He.
 Qed.
 
 Lemma decompress_success dpath P (d : dir) z : lookup d dpath = None -> z_open z = true -> z_chunks z = map Some P ->
+  z_close z = true ->
   exists evs, decompress d dpath z = (evs, true) /\ lookup (applys19 d evs) dpath = Some (Whole P) /\
     lookup (applys19 d evs) (dpath ++ decompress_partial_suffix) = None.
 Proof.
-  intros El Ho Hc. unfold decompress. rewrite El, Ho, Hc. cbn [negb].
+  intros El Ho Hc Hcl. unfold decompress. rewrite El, Ho, Hc, Hcl. cbn [negb].
   set (dpart := dpath ++ decompress_partial_suffix).
-  destruct (cp_loop_all dpart P 0 []) as [e He]. rewrite He. cbn [app]. eexists. split; [reflexivity|].
+  destruct (cp_loop_all dpart P 0 []) as [e He]. rewrite He. cbn [app andb]. eexists. split; [reflexivity|].
   assert (Hp : dpart <> dpath) by apply dc_part_neq.
   change (DEx dpath :: DZOpen (dpath ++ decompress_ext) :: DCr dpart :: e ++ [DCl dpart P; DRn dpart dpath])
     with ((DEx dpath :: DZOpen (dpath ++ decompress_ext) :: DCr dpart :: e) ++ [DCl dpart P] ++ [DRn dpart dpath]).
@@ -307,16 +318,17 @@ Proof.
   unfold download. set (part := path ++ download_partial_suffix).
   assert (Hp : part <> path) by apply dl_part_neq.
   destruct (lookup d path) as [c|] eqn:El; [cbn [fst]; apply untouched_disciplined; repeat constructor|].
-  destruct (s_get src); cbn [negb]; [|cbn [fst]; apply untouched_disciplined; repeat constructor; exact Hp].
-  destruct (s_status src); cbn [negb]; [|cbn [fst]; apply untouched_disciplined; repeat constructor; exact Hp].
-  destruct (s_length src) as [len|]; [|cbn [fst]; apply untouched_disciplined; repeat constructor; exact Hp].
+  destruct (s_get src); cbn [negb]; [|cbn [fst]; apply untouched_disciplined; unt Hp I].
+  destruct (s_status src); cbn [negb]; [|cbn [fst]; apply untouched_disciplined; unt Hp I].
+  destruct (s_length src) as [len|]; [|cbn [fst]; apply untouched_disciplined; unt Hp I].
   destruct (dl_loop part _ 0 (s_reads src) []) as [[e acc] ok] eqn:E.
   assert (He : Forall (untouched path) e) by (eapply dl_loop_untouched; eassumption).
-  destruct ok; cbn [fst].
+  destruct ok; [destruct (s_close src)|]; cbn [andb fst close_ev].
   - rewrite !app_assoc. apply (safe_then_rename_disciplined path part acc d).
-    + rewrite <- !app_assoc. repeat (apply Forall_app; split); repeat constructor; try exact Hp. exact He.
+    + rewrite <- !app_assoc. unt Hp He.
     + apply close_lookup.
-  - apply untouched_disciplined. repeat (apply Forall_app; split); repeat constructor; try exact Hp. exact He.
+  - apply untouched_disciplined. unt Hp He.
+  - apply untouched_disciplined. unt Hp He.
 Qed.
 
 Lemma decompress_disciplined dpath (d : dir) z :
@@ -328,11 +340,12 @@ Proof.
   destruct (z_open z); cbn [negb]; [|cbn [fst]; apply untouched_disciplined; repeat constructor].
   destruct (cp_loop dpart 0 (z_chunks z) []) as [[e acc] ok] eqn:E.
   assert (He : Forall (untouched dpath) e) by (eapply cp_loop_untouched; eassumption).
-  destruct ok; cbn [fst].
+  destruct ok; [destruct (z_close z)|]; cbn [andb fst close_ev].
   - rewrite !app_assoc. apply (safe_then_rename_disciplined dpath dpart acc d).
-    + rewrite <- !app_assoc. repeat (apply Forall_app; split); repeat constructor; try exact Hp. exact He.
+    + rewrite <- !app_assoc. unt Hp He.
     + apply close_lookup.
-  - apply untouched_disciplined. repeat (apply Forall_app; split); repeat constructor; try exact Hp. exact He.
+  - apply untouched_disciplined. unt Hp He.
+  - apply untouched_disciplined. unt Hp He.
 Qed.
 
 (* hence, whatever the source does (honest or not), the final path is never torn *)
@@ -384,12 +397,13 @@ Lemma retry_download path P l (d : dir) src len : good path P d ->
   Forall (fun ck => exists s, fst ck = CDownload path s /\ honest_source P s) l ->
   s_get src = true -> s_status src = true -> s_length src = Some len ->
   Z.to_nat (download_num_blocks len download_block_size) = length P -> s_reads src = map Some P ->
+  s_close src = true ->
   exists evs d', one_call (after d l) (CDownload path src) None = (evs, d', Returned) /\
     lookup d' path = Some (Whole P).
 Proof.
-  intros Hd Hl Hg Hs Hlen Hn Hr. assert (H := after_good_download path P l d Hd Hl).
+  intros Hd Hl Hg Hs Hlen Hn Hr Hc. assert (H := after_good_download path P l d Hd Hl).
   unfold one_call. cbn [call_events]. destruct H as [H|H].
-  - destruct (download_success path P (after d l) src len H Hg Hs Hlen Hn Hr) as (evs & -> & Hp & _).
+  - destruct (download_success path P (after d l) src len H Hg Hs Hlen Hn Hr Hc) as (evs & -> & Hp & _).
     exists evs, (applys19 (after d l) evs). split; [reflexivity|exact Hp].
   - rewrite (download_reuse path _ _ src H). eexists. eexists. split; [reflexivity|].
     cbn [applys19 fold_left apply19 fs_step19 AtomFS.apply]. exact H.
@@ -397,13 +411,13 @@ Qed.
 
 Lemma retry_decompress dpath P l (d : dir) z : good dpath P d ->
   Forall (fun ck => exists s, fst ck = CDecompress dpath s /\ honest_z P s) l ->
-  z_open z = true -> z_chunks z = map Some P ->
+  z_open z = true -> z_chunks z = map Some P -> z_close z = true ->
   exists evs d', one_call (after d l) (CDecompress dpath z) None = (evs, d', Returned) /\
     lookup d' dpath = Some (Whole P).
 Proof.
-  intros Hd Hl Ho Hc. assert (H := after_good_decompress dpath P l d Hd Hl).
+  intros Hd Hl Ho Hc Hcl. assert (H := after_good_decompress dpath P l d Hd Hl).
   unfold one_call. cbn [call_events]. destruct H as [H|H].
-  - destruct (decompress_success dpath P (after d l) z H Ho Hc) as (evs & -> & Hp & _).
+  - destruct (decompress_success dpath P (after d l) z H Ho Hc Hcl) as (evs & -> & Hp & _).
     exists evs, (applys19 (after d l) evs). split; [reflexivity|exact Hp].
   - rewrite (decompress_reuse dpath _ _ z H). eexists. eexists. split; [reflexivity|].
     cbn [applys19 fold_left apply19 fs_step19 AtomFS.apply]. exact H.
